@@ -116,10 +116,7 @@ def archive_items(ab, case, res):
     """what the archive holds (res['all']) in the model's vocabulary; texts are identified by the revision
     whose server-side expansion they equal ('?' when they equal none)"""
     sw = c11_wiki.SynthWiki(case["wiki"], {})
-    by_text = {}
-    for p in case["wiki"]["pages"]:
-        for r in p["revs"]:
-            by_text.setdefault(sw.expand(c11_wiki.render(r)), r["revid"])
+    by_text = text_classes(case, sw)[0]
     raw_text = {c11_wiki.render(p["revs"][-1]): p for p in case["wiki"]["pages"]}
     items = set()
     odd = []
@@ -143,9 +140,7 @@ def archive_items(ab, case, res):
             items.add(("D", ab.tid[title]))
     for t in res["all"]["imageinfo"]:
         items.add(("I", ab.tid[t]))
-    esc = {t.replace(":", "").replace("/", "~"): t for t in ab.titles}
-    for f in res["all"]["files"]:
-        t = esc.get(f)
+    for f, t in res["all"]["files"]:
         if t is None:
             odd.append("file %r" % f)
         else:
@@ -162,6 +157,25 @@ def archive_items(ab, case, res):
                 us.append(ab.uid.get(u, 0))
         items.add(("U", ab.tid.get(t, 0), anon) + tuple(us))
     return canon(items), odd
+
+
+def text_classes(case, sw=None):
+    """texts are identified with revisions: revisions with the same expanded text are one class (smallest revid)"""
+    sw = sw or c11_wiki.SynthWiki(case["wiki"], {})
+    by_text = {}
+    cls = {}
+    for p in case["wiki"]["pages"]:
+        for r in p["revs"]:
+            t = sw.expand(c11_wiki.render(r))
+            by_text[t] = min(by_text.get(t, r["revid"]), r["revid"])
+    for p in case["wiki"]["pages"]:
+        for r in p["revs"]:
+            cls[r["revid"]] = by_text[sw.expand(c11_wiki.render(r))]
+    return by_text, cls
+
+
+def canon_src(items, cls):
+    return {(it[0], it[1], it[2], cls.get(it[3], it[3])) if it[0] == "A" else it for it in items}
 
 
 def canon(items):
@@ -243,7 +257,7 @@ def check_cases(run, cases, src, exe, stats):
             ab = Abs(case)
             abss.append(ab)
             rng = random.Random(case["opts"]["seed"])
-            scheds = [[1], [10 ** 6], [rng.randint(0, 60) for _ in range(400)]]
+            scheds = [[1], [1998], [rng.randint(0, 60) for _ in range(400)]]
             lines.append(ab.line(scheds))
         outs = run_model(exe, lines)
         if len(outs) != len(cases):
@@ -255,9 +269,10 @@ def check_cases(run, cases, src, exe, stats):
             if fields[0].strip() != "OK":
                 dis.append("case %s: model driver: %s" % (case["id"], ln[:200]))
                 continue
-            fetched = canon(parse_items(fields[1]))
-            needed = canon(parse_items(fields[2]))
-            finals = [canon(parse_items(f.split("|", 1)[1])) for f in fields[3:]]
+            cls = text_classes(case)[1]
+            fetched = canon_src(canon(parse_items(fields[1])), cls)
+            needed = canon_src(canon(parse_items(fields[2])), cls)
+            finals = [canon_src(canon(parse_items(f.split("|", 1)[1])), cls) for f in fields[3:]]
             flags = [f.split("|", 1)[0].split() for f in fields[3:]]
             stats["model_steps"] += sum(int(fl[1]) for fl in flags)
             stats["model_measure_max"] = max(stats.get("model_measure_max", 0), max(int(fl[2]) for fl in flags))
